@@ -108,7 +108,7 @@ func TestDevRand(t *testing.T) {
 			id := Attribute(res)
 			stats["viol:"+id]++
 			if id == "" {
-				rt.Fatalf("history %s\n%s\nviolations: %v\n%s", h, h.JSON(), res.Violations, strings.Join(res.Trace, "\n"))
+				rt.Fatalf("history %s\n%s\nUNEXPLAINED: %v\nshapes: %+v\n%s", h, h.JSON(), Unexplained(res), res.Model.Shapes, strings.Join(res.Trace, "\n"))
 			}
 		}
 	})
